@@ -1078,6 +1078,13 @@ func (e *executor) executeGroupBy(ctx context.Context, index string, c *pql.Call
 		return nil, err
 	} else if hasLimit {
 		limit = int(lim)
+		// The offset is applied to the merged result, so the merge has to
+		// keep offset+limit groups.
+		if offset, hasOffset, err := c.UintArg("offset"); err != nil {
+			return nil, err
+		} else if hasOffset && limit < int(^uint(0)>>1)-int(offset) {
+			limit += int(offset)
+		}
 	}
 	filter, _, err := c.CallArg("filter")
 	if err != nil {
@@ -1140,6 +1147,9 @@ func (e *executor) executeGroupBy(ctx context.Context, index string, c *pql.Call
 	} else if hasOffset {
 		if int(offset) < len(results) {
 			results = results[offset:]
+		} else {
+			// the offset is past the last group
+			results = results[:0]
 		}
 	}
 	// Apply limit.
@@ -1259,6 +1269,12 @@ func (e *executor) executeGroupByShard(ctx context.Context, index string, c *pql
 		return nil, err
 	} else if hasLimit {
 		limit = int(lim)
+		// keep enough groups for the offset applied after the merge
+		if offset, hasOffset, err := c.UintArg("offset"); err != nil {
+			return nil, err
+		} else if hasOffset && limit < int(^uint(0)>>1)-int(offset) {
+			limit += int(offset)
+		}
 	}
 
 	results := make([]GroupCount, 0)
